@@ -41,7 +41,7 @@ ASSUMPTIONS = ['pandas is absent: an empty stub module satisfies the unused top-
                'remove_matrixzeros_sinex must drop all-zero lines spelled 0.00000000000000e+00 (its documented form); all-zero '
                'lines in another spelling (E exponent) may stay or go, they are only counted',
                'matrix values are 15-significant-digit numerals (E21.14), compared as exact decimals']
-REQUIRED_COUNTERS = ['clock_equal_to_parameter_count_edits', 'clock_reads', 'stns_edits_L', 'stns_edits_U', 'stns_edits_vel', 'stns_edits_novel', 'velocity_edits',
+REQUIRED_COUNTERS = ['calls_with_the_callers_own_list', 'clock_equal_to_parameter_count_edits', 'clock_reads', 'stns_edits_L', 'stns_edits_U', 'stns_edits_vel', 'stns_edits_novel', 'velocity_edits',
                      'zeros_edits', 'zero_lines_in_input', 'wellformed_judged', 'header_layout_judged',
                      'estimates_judged', 'matrix_judged', 'matrix_values_compared', 'clock_pairs_judged',
                      'read_estimate_judged', 'read_matrix_judged', 'read_sites_judged', 'agency_with_V_velocity_edits',
@@ -182,8 +182,9 @@ class Harness:
     def set_clock(self, c):
         self.Clock._now = self.Clock(*c)
 
-    def edit(self, op, inpath, removed, clock):
-        """One library call in its own working directory.  -> (text | None, exception repr | None)"""
+    def edit(self, op, inpath, removed, clock, removal_list=None):
+        """One library call in its own working directory.  -> (text | None, exception repr | None)
+        removal_list: the caller's own list object to pass (a batch passes one exclusion list to many calls)."""
         fn = getattr(self.G, EDIT_FN[op])
         text, exc = None, None
         old = os.getcwd()
@@ -193,7 +194,7 @@ class Harness:
                 self.set_clock(clock)
                 try:
                     if op == 'stns':
-                        fn(inpath, list(removed))
+                        fn(inpath, list(removed) if removal_list is None else removal_list)
                     else:
                         fn(inpath)
                 except core.Inconclusive:
@@ -445,8 +446,20 @@ def run_edit(h, ctx, m, in_lines, inpath, op, removed, clocks, sample=False):
     case = {'gen': m['gen'], 'op': op, 'remove': list(removed), 'clocks': [list(c) for c in clocks]}
     g = m['gen']
     outs = []
-    for c in clocks:
-        text, exc = h.edit(op, inpath, removed, c)
+    # one exclusion list object for the whole batch of calls, as a caller processing several files would hold it
+    shared = list(removed)
+    todo = list(clocks)
+    extra = False
+    while todo:
+        c = todo.pop(0)
+        text, exc = h.edit(op, inpath, removed, c, removal_list=shared)
+        if op == 'stns':
+            ctx.count('calls_with_the_callers_own_list')
+            if shared != list(removed) and not todo and not extra:
+                # the call rewrote the caller's list: what the property promises is judged on the next call of the batch
+                ctx.count('removal_list_rewritten_by_call')
+                todo.append(c)
+                extra = True
         ctx.judged()
         ctx.count('edits_executed')
         lab = clock_label(c)
